@@ -583,19 +583,19 @@ def parseOrPattern : Nat → List Tok → PR Pattern
   | f + 1, ts =>
     match parseClosed f ts with
     | some (p, .op .bar :: r) =>
-      (match parseOrRest f r with
+      (match parseOrPatRest f r with
        | some (ps, r') => some (.matchOr (p :: ps), r')
        | none => none)
     | res => res
 termination_by structural f => f
 
 /-- the remaining alternatives of a `TwoOrMore<ClosedPattern, "|">` -/
-def parseOrRest : Nat → List Tok → PR (List Pattern)
+def parseOrPatRest : Nat → List Tok → PR (List Pattern)
   | 0, _ => none
   | f + 1, ts =>
     match parseClosed f ts with
     | some (p, .op .bar :: r) =>
-      (match parseOrRest f r with
+      (match parseOrPatRest f r with
        | some (ps, r') => some (p :: ps, r')
        | none => none)
     | some (p, r) => some ([p], r)
